@@ -143,11 +143,12 @@ func init() {
 		Pkg: "verif/harness/c08",
 		Runs: []RunDef{
 			{Fn: "H_iface_chain", Fuel: 30_000_000, Tier: "quick", Reach: []string{"end"}},
+			{Fn: "H_parent_chain", Fuel: 30_000_000, Tier: "quick", Reach: []string{"end"}},
 			{Fn: "H_hierarchy", Params: map[string]int{"implbits": 16}, Fuel: 30_000_000, Tier: "quickonly", Reach: []string{"end"}},
 			{Fn: "H_hierarchy", Params: map[string]int{"implbits": 64}, Fuel: 30_000_000, Tier: "thorough", Reach: []string{"end"}},
 		},
-		Rule:    rule + "; the hierarchy is the quantified dimension: parent links of 3 classes (single inheritance), extends edge between 2 interfaces, implements matrix, override bits — every shape (quick: 768 with C0 implementing nothing, thorough: all 3072; H_iface_chain: 3 interfaces with every extends shape among them, incl. chains of depth 3) is assembled as script text, registered by the real class/interface parsers and checked for all (object, type) pairs (instanceof, typed parameter, catch) and all dispatch forms (virtual call, parent::, self::, static::, like) against reachability computed by a 15-line closure. No scalar dimension: the engine degenerates to exhaustive bounded enumeration here",
-		Outside: []string{"4-5 classes, 3-4 interfaces, multiple interface extends", "like with more than 3 probe interfaces"},
+		Rule:    rule + "; the hierarchy is the quantified dimension: parent links of 3 classes (single inheritance), extends edge between 2 interfaces, implements matrix, override bits — every shape (quick: 768 with C0 implementing nothing, thorough: all 3072; H_iface_chain: 3 interfaces with every extends shape among them, incl. chains of depth 3; H_parent_chain: a 4-class chain where every class defines m() or inherits it and every definition continues with parent::m() or not, plus static::/self:: helpers) is assembled as script text, registered by the real class/interface parsers and checked for all (object, type) pairs (instanceof, typed parameter, catch) and all dispatch forms (virtual call, parent::, self::, static::, like) against reachability computed by a 15-line closure. No scalar dimension: the engine degenerates to exhaustive bounded enumeration here",
+		Outside: []string{"5 classes, 4 interfaces; instanceof/catch/like on the 4-class chain (dispatch only)", "like with more than 3 probe interfaces"},
 	})
 
 	reg(Check{
@@ -219,9 +220,10 @@ func init() {
 		Pkg: "verif/harness/c10",
 		Runs: []RunDef{
 			{Fn: "H_two", Tier: "quickonly", Sched: true, Preempt: 2, Reach: []string{"end"}},
+			{Fn: "H_two_fold", Tier: "quick", Sched: true, Preempt: 2, Reach: []string{"end"}},
 			{Fn: "H_two", Tier: "thorough", Sched: true, Preempt: 4, Reach: []string{"end"}},
 		},
-		Rule:        rule + "; two goroutines issue one call each out of {AddClass, AddFunc, AddInterface, GetClass, GetFunc, SetConstant, GetConstant, EnsureGlobalZVal} on names from a 2-name pool (all 64 x 4 combinations); the five registry maps are marked shared, so every map access and every lock operation is a schedule point and all interleavings within the preemption bound are explored; obligations: no happens-before race on a registry map (vector clocks over RWMutex edges), results equal those of one of the 2 sequential orders run on a fresh VM in the same path, a duplicate name accepted at most once",
+		Rule:        rule + "; two goroutines issue one call each out of {AddClass, AddFunc, AddInterface, GetClass, GetFunc, SetConstant, GetConstant, EnsureGlobalZVal} on names from a 2-name pool (all 64 x 4 combinations); the five registry maps are marked shared, so every map access and every lock operation is a schedule point and all interleavings within the preemption bound are explored; obligations: no happens-before race on a registry map (vector clocks over RWMutex edges), results equal those of one of the 2 sequential orders run on a fresh VM in the same path, a duplicate name accepted at most once; H_two_fold drives the case-insensitive lookup path (spellings a / A, with a class of the other spelling registered beforehand or not)",
 		Assumptions: []string{"sync.RWMutex modelled at contract level (readers/writer counts, unlock->lock and RUnlock->Lock happens-before edges)", "bounded: 2 goroutines x 1 call, preemption bound 2 (quick) / 4 (thorough)"},
 		Outside:     []string{"10^2-10^4 calls, 3-16 goroutines, GOMAXPROCS effects (stress testing is a different technique family)", "LoadPkg autoloading from files, call-depth counters"},
 	})
